@@ -18,7 +18,7 @@ enum BudgetKind { BK_FREE = 0, BK_PREEMPT = 1, BK_FAULT = 2, BK_CRASH = 3, BK_EN
 static const char *const BK_NAMES[] = { "free", "preemption", "fault", "crash", "env" };
 
 #define VK_MAXDEV 12
-#define VK_MAXALT 64
+#define VK_MAXALT 250
 #define VK_MAXLEVEL 8
 #define VK_NSTAT 48
 
@@ -74,7 +74,7 @@ struct Explorer {
 
   int choose(const uint8_t *kinds, int n) {
     if (n <= 1) return 0;
-    if (n > VK_MAXALT) n = VK_MAXALT;
+    if (n > VK_MAXALT) { diverged = true; diverge_msg = "choice point with " + std::to_string(n) + " alternatives exceeds VK_MAXALT"; n = VK_MAXALT; }
     uint32_t idx = npoints++;
     Point pt; pt.n = n; memset(pt.kinds, 0, sizeof pt.kinds); memcpy(pt.kinds, kinds, n); pt.kinds[0] = 0;
     for (int i = 0; i < n; i++) { sig ^= (uint64_t) (pt.kinds[i] + 1 + 31 * n); sig *= 1099511628211ULL; }
@@ -83,12 +83,12 @@ struct Explorer {
     if (item && next_dev < item->ndev && item->dev[next_dev].idx == idx) {
       const Dev &d = item->dev[next_dev++];
       if (d.alt >= n) { diverged = true; diverge_msg = "replayed choice out of range at point " + std::to_string(idx); return 0; }
-      if (next_dev == item->ndev && item->sig != sig) { diverged = true; diverge_msg = "choice-point signature differs while replaying the prefix (point " + std::to_string(idx) + ")"; }
+      if (next_dev == item->ndev && item->sig && item->sig != sig) { diverged = true; diverge_msg = "choice-point signature differs while replaying the prefix (point " + std::to_string(idx) + ")"; }
       return d.alt;
     }
     return 0;
   }
-  int choose_n(int n, int kind) { uint8_t kk[VK_MAXALT]; if (n > VK_MAXALT) n = VK_MAXALT; for (int i = 0; i < n; i++) kk[i] = kind; return choose(kk, n); }
+  int choose_n(int n, int kind) { uint8_t kk[VK_MAXALT + 1]; if (n > VK_MAXALT) { diverged = true; diverge_msg = "choose_n(" + std::to_string(n) + ") exceeds VK_MAXALT"; n = VK_MAXALT; } for (int i = 0; i < n; i++) kk[i] = kind; return choose(kk, n); }
 
   bool outcome(uint64_t h) {   // returns true if new
     if (!h) h = 1;
